@@ -101,7 +101,7 @@ func Run(p *prog.Program, work string, maxStr int, preload func(root string) err
 	// the tracer itself failed (seen under load: "strace: ptrace(PTRACE_LISTEN,...): Input/output error", exit status 1):
 	// neither the exit status nor the log say anything about the code under test
 	for _, ln := range strings.Split(t.Stderr, "\n") {
-		if strings.HasPrefix(ln, "strace: ") {
+		if strings.HasPrefix(ln, "strace: ") && !strings.Contains(ln, "exiting, ptrace_syscall_info") { // (that one is a notice about a thread that went away inside a call, e.g. at execve)
 			return nil, &InfraError{"the tracer failed: " + ln}
 		}
 	}
